@@ -299,8 +299,8 @@ def agc_cases(tier, seed):
 def agc_check(case):
     wl, si, n = case
     rng = np.random.default_rng([SEED[0] + 29, n])
-    x = rng.standard_normal((7, n)) * (10.0 ** np.arange(-3, 4))[:, None]
-    x[3] = 0.0            # a dead row
+    x = rng.standard_normal((9, n)) * np.array([1e-12, 1e-9, 1e-6, 1e-3, 0.0, 1.0, 1e3, 37.5e-6, 1e-15])[:, None]
+    # row 4 is a dead row; rows 0, 1, 8 are tiny but alive
     x0 = x.copy()
     v = []
     try:
@@ -308,7 +308,15 @@ def agc_check(case):
     except Exception as e:
         return Res([("agc:exc", "agc(wl=%r, si=%r, ns=%d) raised %s: %s" % (wl, si, n, type(e).__name__, e))])
     if out.shape != x0.shape or gain.shape != x0.shape or not np.allclose(out * gain, x0, rtol=1e-9, atol=1e-300):
-        v.append(("agc:product", "agc(wl=%r, si=%r, ns=%d): data x gain differs from the input" % (wl, si, n)))
+        rows = np.flatnonzero(~np.all(np.isclose(out * gain, x0, rtol=1e-9, atol=1e-300), axis=1)).tolist() if out.shape == x0.shape else []
+        v.append(("agc:product", "agc(wl=%r, si=%r, ns=%d): data x gain differs from the input on rows %r (row amplitudes 1e-12, 1e-9, 1e-6, 1e-3, 0, 1, 1e3, 37.5e-6, 1e-15)" % (wl, si, n, rows)))
+    # the whole array scaled down: same law
+    for scale in (1e-9, 1e-12):
+        y0 = rng.standard_normal((5, n)) * scale
+        o2, g2 = voltage.agc(y0.copy(), wl=wl, si=si)
+        if not np.allclose(o2 * g2, y0, rtol=1e-9, atol=1e-300):
+            v.append(("agc:product:small-amplitude", "agc(wl=%r, si=%r, ns=%d) on data of amplitude %g: data x gain differs from the input" % (wl, si, n, scale)))
+            break
     if np.any(gain < 0) or not np.all(np.isfinite(out)):
         v.append(("agc:finite", "agc returns negative gain or non-finite data"))
     return Res(v, o=(n < int(wl / si),), tr=1)
